@@ -15,7 +15,9 @@
      emitted by the server (drained through Read):   field txn user account fnwi infofork ffo fileheader nald
                                                      newsartlist newscat15 trackerreg
      produced in one piece (no incremental Read):    resume time handshake(reply)
-     received by the server (decoder only):          filepath newspath preamble handshake int serverrecord *)
+     received (decoder only):                        filepath newspath preamble handshake int obfstr serverrecord
+                                                     listing (tracker reply; its request is emitted) flatfile
+                                                     (whole flattened file incl. resource fork header) *)
 EXTENDS Naturals, Sequences, FiniteSets, TLC
 
 Min(a, b) == IF a < b THEN a ELSE b
@@ -36,6 +38,7 @@ Cat(ss) == CatFrom(ss, 1)     \* concatenation of a sequence of byte strings
 Neg(s) == [i \in 1..Len(s) |-> 255 - s[i]]   \* "every character in this string is negated" (Get User 352 / Login 107)
 
 TRTP == <<84, 82, 84, 80>>    HOTL == <<72, 79, 84, 76>>    HTXF == <<72, 84, 88, 70>>
+HTRK == <<72, 84, 82, 75>>
 FILP == <<70, 73, 76, 80>>    INFO == <<73, 78, 70, 79>>    DATA == <<68, 65, 84, 65>>
 MACR == <<77, 65, 67, 82>>    RFLT == <<82, 70, 76, 84>>    AMAC == <<65, 77, 65, 67>>
 MWIN == <<77, 87, 73, 78>>    FLDR == <<102, 108, 100, 114>>
@@ -144,6 +147,20 @@ EncTrackerReg(t) ==
 EncServerRecord(s) ==
   s.ip \o U16(s.port) \o U16(s.users) \o Zeros(2) \o U8(Len(s.name)) \o s.name \o U8(Len(s.desc)) \o s.desc
 
+(* "Client Interface with Tracker": the client sends Magic number "HTRK"(4) Version(2) = 1; the tracker replies with
+   the same 6-byte header, then the server information header Message type(2) = 1, Message data size(2) = remaining
+   size, Number of servers(2), Number of servers(2) again, and the server list records. *)
+ListingRequest == HTRK \o U16(1)
+EncListing(g) ==
+  LET recs == Cat([i \in 1..Len(g.servers) |-> EncServerRecord(g.servers[i])])
+  IN HTRK \o U16(1) \o U16(1) \o U16(4 + Len(recs)) \o U16(Len(g.servers)) \o U16(Len(g.servers)) \o recs
+
+(* "Flattened File Object" as a whole stream (upload direction): header, INFO fork, DATA fork header + content and,
+   when Fork count = 3, the resource fork header "MACR" + content *)
+EncFlatFile(f) ==
+  EncFFOHeader([forks |-> f.forks, info |-> f.info, datasize |-> U32(Len(f.data))]) \o f.data
+  \o (IF f.forks = 3 THEN EncForkHeader(MACR, U32(Len(f.rsrc))) \o f.rsrc ELSE <<>>)
+
 (* "File Create Date (208)": Year(2) Milliseconds(2) Seconds(4); Mobius sends 0 milliseconds *)
 EncTime(t) == U16(t.year) \o U16(0) \o U32(t.secs)
 
@@ -161,9 +178,9 @@ EncPreamble(p) == p.proto \o p.ref \o p.size \o p.rsvd
 
 DrainKinds == {"field", "txn", "user", "account", "fnwi", "infofork", "ffo", "fileheader", "nald", "newsartlist",
                "newscat15", "trackerreg"}
-WholeKinds == {"resume", "time", "handshake"}      \* produced in one piece
+WholeKinds == {"resume", "time", "handshake", "listing"}      \* produced in one piece
 EmitKinds  == DrainKinds \cup WholeKinds
-FedKinds   == {"filepath", "newspath", "preamble", "handshake", "int", "serverrecord"}   \* decoder input from the spec
+FedKinds   == {"filepath", "newspath", "preamble", "handshake", "int", "serverrecord", "listing", "flatfile", "obfstr"}   \* decoder input from the spec
 DecKinds   == {"field", "txn", "user", "account", "fnwi", "infofork", "ffo", "resume", "fileheader"} \cup FedKinds
 Dec2Kinds  == {"infofork", "fileheader"}            \* a second real decoder exists
 AllKinds   == EmitKinds \cup FedKinds
@@ -185,6 +202,7 @@ Out(k, o) ==
     [] k = "trackerreg" -> EncTrackerReg(o)
     [] k = "time" -> EncTime(o)
     [] k = "handshake" -> IF HandshakeValid(o) THEN HandshakeReply ELSE <<>>
+    [] k = "listing" -> ListingRequest          \* what the listing client sends before it reads the reply
     [] OTHER -> <<>>
 
 (* what the real decoder is given when the bytes come from the specification *)
@@ -195,6 +213,9 @@ In(k, o) ==
     [] k = "handshake" -> EncHandshake(o)
     [] k = "int" -> o.data
     [] k = "serverrecord" -> EncServerRecord(o)
+    [] k = "listing" -> EncListing(o)
+    [] k = "flatfile" -> EncFlatFile(o)
+    [] k = "obfstr" -> o.data
     [] OTHER -> <<>>
 
 -----------------------------------------------------------------------------
@@ -242,6 +263,11 @@ Canon(k, o) ==
                     ELSE IF Len(o.data) = 4 THEN Ok([v |-> o.data]) ELSE Err
     [] k = "serverrecord" -> Ok([ip |-> o.ip, port |-> o.port, users |-> o.users, nsize |-> Len(o.name),
                                  name |-> o.name, dsize |-> Len(o.desc), desc |-> o.desc])
+    [] k = "listing" -> Ok([servers |-> [i \in 1..Len(o.servers) |->
+                               LET r == o.servers[i] IN [ip |-> r.ip, port |-> r.port, users |-> r.users, nsize |-> Len(r.name),
+                                                         name |-> r.name, dsize |-> Len(r.desc), desc |-> r.desc]]])
+    [] k = "flatfile" -> Ok([info |-> EncInfoFork(o.info), data |-> o.data, rsrc |-> IF o.forks = 3 THEN o.rsrc ELSE <<>>])
+    [] k = "obfstr" -> Ok([s |-> Neg(o.data)])
     [] OTHER -> Err
 
 (* second decoder: FlatFileInformationFork.UnmarshalBinary; the folder-upload path formatter (item names joined
@@ -290,6 +316,12 @@ ArtsEnd(b, p, n) ==
        IN IF q = 0 THEN 0
           ELSE LET r == FlavorsEnd(b, q, fc) IN IF r = 0 THEN 0 ELSE ArtsEnd(b, r, n - 1)
 
+RECURSIVE RecordsEnd(_, _, _)     \* n tracker server records: 10 fixed bytes + two one-byte-prefixed strings
+RecordsEnd(b, p, n) ==
+  IF n = 0 THEN p
+  ELSE IF p + 9 > Len(b) THEN 0
+  ELSE LET q == PStrEnd(b, p + 10, 2) IN IF q = 0 THEN 0 ELSE RecordsEnd(b, q, n - 1)
+
 InfoForkOK(b) ==
   /\ Len(b) >= 74
   /\ LET ns == BE(Sub(b, 71, 72)) IN
@@ -326,11 +358,22 @@ LenPrefixOKBytes(k, b) ==
     [] k = "time" -> L = 8
     [] k = "preamble" -> L = 16
     [] k = "handshake" -> L \in {0, 8}
+    [] k = "listing" -> \/ b = ListingRequest
+                        \/ /\ L >= 14 /\ BE(Sub(b, 9, 10)) = L - 10 /\ Sub(b, 11, 12) = Sub(b, 13, 14)
+                           /\ RecordsEnd(b, 15, BE(Sub(b, 11, 12))) = L + 1
+    [] k = "flatfile" -> /\ L >= 24 + 16 + 74 + 16 /\ b[37] < 128
+                         /\ LET isz == BE(Sub(b, 37, 40))
+                                dh  == 40 + isz                       \* the DATA fork header follows the INFO fork
+                            IN /\ dh + 16 <= L /\ InfoForkOK(Sub(b, 41, dh)) /\ b[dh + 13] < 128
+                               /\ LET dsz == BE(Sub(b, dh + 13, dh + 16))
+                                      rh  == dh + 16 + dsz
+                                  IN IF BE(Sub(b, 23, 24)) = 2 THEN rh = L
+                                     ELSE /\ rh + 16 <= L /\ b[rh + 13] < 128 /\ rh + 16 + BE(Sub(b, rh + 13, rh + 16)) = L
     [] OTHER -> TRUE
 
 LenPrefixOK(k, o) ==
   /\ (k \in EmitKinds => LenPrefixOKBytes(k, Out(k, o)))
-  /\ (k \in FedKinds \ {"handshake", "int"} => LenPrefixOKBytes(k, In(k, o)))
+  /\ (k \in FedKinds \ {"handshake", "int", "obfstr"} => LenPrefixOKBytes(k, In(k, o)))
 
 -----------------------------------------------------------------------------
 (* ---- the drain machine: an encoder read through caller-supplied buffers ---- *)
